@@ -1456,7 +1456,14 @@ class FortranFile:
                 line_no_comment = line
             # Split lines with semicolons, place the multiple lines into a stack
             if line_stripped.find(";") >= 0:
-                multi_lines.extendleft(line_stripped.split(";"))
+                # Cut where the code has a semicolon (not inside a character
+                # literal); the statements keep the text of their literals
+                cuts = [-1]
+                cuts += [i for i, char in enumerate(line_stripped) if char == ";"]
+                cuts.append(len(line_stripped))
+                multi_lines.extendleft(
+                    line_no_comment[i + 1 : j] for i, j in zip(cuts, cuts[1:])
+                )
                 line = multi_lines.pop()
                 line_stripped = line
                 line_no_comment = line
